@@ -86,13 +86,22 @@ ExtWellFormed(e, cfg) ==
   /\ Len(ExtData(e, cfg)) < 65536
 
 ----------------------------------------------------------------------------
-(* cfg = [ver, rmode, random, sid, suites, comp, exts, serverName, force, cache]
-     rmode  "fixed" (ClientRandom has 32 bytes) | "fresh" | "timestamp" (InsertTimestamp)
-     random the 32 literal bytes (rmode = "fixed"), else a ClientRandom of another length or <<>>
-     force  Config.ForceSuites;  cache  Config.ClientSessionCache is set                 *)
-RandomOf(cfg) == CASE cfg.rmode = "fixed" -> cfg.random
-                   [] cfg.rmode = "fresh" -> [i \in 1..32 |-> -1]
-                   [] cfg.rmode = "timestamp" -> [i \in 1..32 |-> IF i <= 4 THEN -2 ELSE -1]
+(* cfg = [ver, its, random, sid, suites, comp, exts, serverName, force, cache]
+     random ClientRandom, a byte string of ANY length;  its  InsertTimestamp
+     force  Config.ForceSuites;  cache  Config.ClientSessionCache is set
+
+   The random field, by the documentation of ClientFingerprintConfiguration (handshake_client.go):
+     "if len == 32, it will specify the client random.  Otherwise, the field will be random except
+      the top 4 bytes if InsertTimestamp is true"
+   - a 32-byte ClientRandom is sent verbatim, WHATEVER InsertTimestamp says (the timestamp clause
+     sits in the "otherwise" branch);
+   - a ClientRandom of any other length (0, 1, 4, 28, 31, 33 ...) is not used at all: 32 fresh
+     bytes, or the 4-byte Unix time followed by 28 fresh bytes when InsertTimestamp is set.
+   The statement ("client random (or fresh randomness, with a timestamp prefix when requested)")
+   says the same; nothing is left open here.                                             *)
+RandomOf(cfg) == IF Len(cfg.random) = 32 THEN cfg.random
+                 ELSE IF cfg.its THEN [i \in 1..32 |-> IF i <= 4 THEN -2 ELSE -1]
+                 ELSE [i \in 1..32 |-> -1]
 
 ExtBlock(cfg) == Flat([i \in 1..Len(cfg.exts) |-> ExtBytes(cfg.exts[i], cfg)])
 
@@ -117,7 +126,6 @@ DistinctKinds(cfg) == \A i, j \in 1..Len(cfg.exts) :
 (* Representable: HelloOf(cfg) is a ClientHello at all *)
 Representable(cfg) ==
   /\ Len(cfg.ver) = 2 /\ Len(cfg.sid) < 256 /\ Len(cfg.comp) < 256 /\ 2 * Len(cfg.suites) < 65536
-  /\ cfg.rmode = "fixed" => Len(cfg.random) = 32
   /\ \A i \in 1..Len(cfg.exts) : ExtWellFormed(cfg.exts[i], cfg)
   /\ Len(ExtBlock(cfg)) < 65536
   /\ Len(HelloBody(cfg)) < 16777216
